@@ -178,6 +178,8 @@ class BlockDiagLinearOperator(BlockLinearOperator, metaclass=_MetaBlockDiagLinea
         Optional[Float[Tensor, "..."]],
     ]:
         if inv_quad_rhs is not None:
+            if inv_quad_rhs.dim() == 1:  # a single vector is a one-column matrix
+                inv_quad_rhs = inv_quad_rhs.unsqueeze(-1)
             inv_quad_rhs = self._add_batch_dim(inv_quad_rhs)
         inv_quad_res, logdet_res = self.base_linear_op.inv_quad_logdet(
             inv_quad_rhs, logdet, reduce_inv_quad=reduce_inv_quad
